@@ -1,0 +1,41 @@
+//go:build verif
+
+// Contracts for the deductive verifier in /verif (govc). This file contains comments
+// only; it is compiled only with the build tag "verif" and then adds nothing but the
+// package clause.
+
+package limit
+
+//@ pred validRate(r)
+//@   [C13 C04 C12] r.Interval > 0 && r.Quantity > 0
+
+// C13: the statement of the property, as a predicate over (receiver, minimum, results).
+//@ pred recalcOK(rt, minimum, r, err)
+//@   [C13] err-zero-rate: err != nil ==> r.Interval == 0 && r.Quantity == 0
+//@   [C13] err-only-when: err != nil ==> (rt.Interval <= 0 || rt.Quantity == 0 || minimum < 0
+//@            || (minimum == 0 && rt.Interval / rt.Quantity == 0)
+//@            || (rt.Quantity * minimum) / rt.Interval >= two64)
+//@   [C13] result-valid: err == nil ==> r.Interval > 0 && r.Quantity > 0
+//@   [C13] result-min: err == nil ==> r.Interval >= minimum
+//@   [C13] result-minimal: err == nil ==> (r.Quantity == 1 || r.Interval == minimum)
+//@   [C13] not-faster: err == nil ==> r.Quantity * rt.Interval < rt.Quantity * (r.Interval + 1)
+//@   [C13] not-slower: err == nil ==> (r.Quantity + 1) * rt.Interval > rt.Quantity * r.Interval
+
+//@ func Rate.IsValid
+//@   ensures [C13 C04 C12] valid-iff: (result == nil) <==> (rt.Interval > 0 && rt.Quantity > 0)
+//@   ensures [C13] error-kind: result != nil ==> (result == ErrIntervalNegative || result == ErrIntervalZero || result == ErrQuantityZero)
+
+//@ func Rate.Recalculate
+//@   ensures [C13] recalcOK(rt, minimum, result0, result1)
+
+//@ func Rate.Flatten
+//@   ensures [C13] recalcOK(rt, 0, result0, result1)
+
+//@ func Rate.Optimize
+//@   ensures [C13] recalcOK(rt, OptimizationInterval, result0, result1)
+
+//@ func recalculateQuantity
+//@   requires [*] interval > 0 && minimum >= 0
+//@   ensures [C13] quotient: result1 == nil ==> result0 == (quantity * minimum) / interval
+//@   ensures [C13] unrepresentable: result1 != nil ==> result0 == 0 && (quantity * minimum) / interval >= two64
+//@   ensures [C13] error-kind: result1 == nil || result1 == ErrConvertedQuantityUnrepresentable
